@@ -50,6 +50,7 @@ StateFails(e) ==
     \cup Fail("C06_RefusedOnlyAtLimit", C06_RefusedOnlyAtLimit(s.api, mc))
     \cup Fail("C07_NotEarly", C07_NotEarly(s.api))
     \cup Fail("C06_NoStuck", (Quiet(s) \/ Stuck(e)) => C06_NoStuck(s.api, s.now, mc))
+    \cup Fail("C07_DueStarts", (Quiet(s) \/ Stuck(e)) => C07_DueStarts(s.api, s.now, mc))
     \cup Fail("C07_IndependentStarts", (Quiet(s) \/ Stuck(e)) => C07_IndependentStarts(s.api, s.now))
     \cup Fail("C20_Converges", ~Stuck(e))
     \cup Fail("C15_Exact", (s.jcsync /\ Quiet(s)) => \A c \in DOMAIN s.jcapi : C15_Exact(s.api, CHOOSE n \in 1..2 : ToString(n) = c, s.jcapi[c], SetOfIds))
